@@ -3,7 +3,7 @@ from . import common as C
 from .gens import *
 
 PROP = "C06"
-LEAN_MODULE = "RSV.Props.C06"
+LEAN_MODULE = "RSV.Props.C06all"
 RULE = ("proof: C06_iff (verdict <-> every parity shard equals encodeSpec of the data), C06_flip_parity, C06_flip_data + "
         "C06_mds_entry_ne_zero (any single-byte change anywhere is detected for every MDS generator with p>=1), excluded points "
         "stated (C06_p0, C06_zero_column_undetected). Correspondence: Verify on encoded sets with one byte changed, for every "
